@@ -32,6 +32,28 @@ def load_contract_modules():
 
 _PROG = None
 _REG = None
+_FOOT = None
+
+
+def footprint():
+    """Attribute names known to the contracts (appearing anywhere in contracts/*.py).  An attribute of a repo object
+    whose name no contract mentions is state the contracts do not constrain directly: it is not compared field by
+    field; its influence on results is caught by the history cases (same object, earlier call, re-assignment)."""
+    global _FOOT
+    if _FOOT is None:
+        import ast
+        names = set()
+        for f in glob.glob(os.path.join(VERIF, 'contracts', '*.py')):
+            tree = ast.parse(open(f).read())
+            for n in ast.walk(tree):
+                if isinstance(n, ast.Attribute):
+                    names.add(n.attr)
+                elif isinstance(n, ast.keyword) and n.arg:
+                    names.add(n.arg)
+                elif isinstance(n, ast.Constant) and isinstance(n.value, str) and n.value.isidentifier():
+                    names.add(n.value)
+        _FOOT = names
+    return _FOOT
 
 
 def program():
@@ -99,7 +121,10 @@ def run_case_task(task):
         import fnmatch as _fn
         used, inl = set(), set()
         fnames = {}
-        while shared.worklist:
+        early = None         # witness found as soon as the first obligation failed
+        early_tried = 0
+        ign = tuple(x.split('.')[-1] for x in copts.get('ignore', ())) + tuple(copts.get('ignore', ()))
+        while shared.worklist and early is None:
             prefix = shared.worklist.pop()
             try:
                 res = verify.run_path(prog, reg, c, None, build, prefix, shared, modular=not copts.get('inline', False), opts=copts)
@@ -123,8 +148,15 @@ def run_case_task(task):
             # try all goals at once first
             goals = [(n, g) for n, g in res.goals if only is None or any(_fn.fnmatchcase(n, p) for p in only)]
             pending = []
+            seen_goals = {}
             for n, g in goals:
-                st, model, dt, be = verify.smt_check(res.assumptions, g)
+                gk = g.get_id() if hasattr(g, 'get_id') else repr(g)
+                if gk in seen_goals:
+                    st, model, dt, be = seen_goals[gk]      # same formula under the same assumptions (aliased entries)
+                    dt = 0.0
+                else:
+                    st, model, dt, be = verify.smt_check(res.assumptions, g)
+                    seen_goals[gk] = (st, model, dt, be)
                 out['solver_s'] += dt
                 rec = per_name.setdefault(n, ['proved', set(), 0.0, 0])
                 rec[1].add(be)
@@ -138,6 +170,16 @@ def run_case_task(task):
                         from .factory import SymFactory
                         mv = verify.model_values(model, _factory_names(c, build, prog, reg))
                     failing.append((n, st, mv, str(g)[:2000] if g is not False else 'False (structural mismatch)', res.desc))
+                    if early_tried < 2:
+                        # replay at once: a failing input on the real code settles this case (no need to spend
+                        # the solver budget on the remaining obligations of a function that is already refuted)
+                        early_tried += 1
+                        w, tried = replay.search(c, build, mv, n_random=40, seed=int(opts.get('seed', 0)), ignore=ign,
+                                                 only=only, post_body=copts.get('post_body'))
+                        out['replay_tried'] = out.get('replay_tried', 0) + tried
+                        if w is not None:
+                            early = w
+                            break
         out['feas_checks'] = shared.feas_checks
         out['used_specs'] = sorted(used)
         out['inlined'] = sorted(inl)
@@ -148,17 +190,19 @@ def run_case_task(task):
             out['status'] = 'vacuous'
             out['detail'] = 'no feasible path'
         # anything not proved (or out of subset): directed search on the real code
-        if failing or unsupported is not None:
+        if early is not None:
+            out['violation'] = {'witness': early, 'failing': [(f[0], f[1], f[3], f[4]) for f in failing[:8]]}
+            out['detail'] = 'stopped at the first obligation refuted on the real code'
+        elif failing or unsupported is not None:
             mv = None
             for f in failing:
                 if f[2]:
                     mv = f[2]
                     break
             n_random = int(opts.get('n_random', 300))
-            ign = tuple(x.split('.')[-1] for x in copts.get('ignore', ()))
             w, tried = replay.search(c, build, mv, n_random=n_random, seed=int(opts.get('seed', 0)), ignore=ign,
                                      only=only, post_body=copts.get('post_body'))
-            out['replay_tried'] = tried
+            out['replay_tried'] = out.get('replay_tried', 0) + tried
             if w is not None:
                 out['violation'] = {'witness': w, 'failing': [(f[0], f[1], f[3], f[4]) for f in failing[:8]]}
             else:
